@@ -43,7 +43,15 @@ type table struct {
 // The property's domain is the board tables the system can produce (C12): names of letters/digits/_-. that are
 // pairwise distinct up to case, title byte 4 a blank.  Tables outside it are still generated and compared with the
 // model, but a deviation from the scan on them is recorded (NOTE), not judged.
-func (t *table) ood(k int) bool { return t.dup || t.invalid || (k == 1 && t.class5) }
+func (t *table) ood(k int) bool {
+	return t.dup || t.invalid || (k == 1 && t.class5)
+}
+
+// detailsMode: the op being run and judged is on bbs.LoadGeneralBoardDetails, which lists every NON-VACATED slot of
+// the view (no group / permission filter).  Before fix 6f287ee it listed vacated slots too, which have no usable
+// cursor (by name the empty string = "no next page", by class one shared key): failures on tables with vacated
+// slots carry the suffix +vacated (keys walk:details-name+vacated, walk:details-class+vacated).
+var detailsMode bool
 
 var oodCount = map[string]int{}
 var oodFirst = map[string]string{}
@@ -197,7 +205,7 @@ func (t *table) isSortedPerm(k int) bool {
 	return true
 }
 
-func (t *table) listable(b int) bool { return len(t.low[b]) > 0 && !t.grp[b] }
+func (t *table) listable(b int) bool { return len(t.low[b]) > 0 && (detailsMode || !t.grp[b]) }
 
 func (t *table) suffix() string {
 	if t.dup {
@@ -504,6 +512,12 @@ func listingName(auto bool, k int) string {
 	if auto {
 		return "auto"
 	}
+	if detailsMode {
+		if k == 1 {
+			return "details-class"
+		}
+		return "details-name"
+	}
 	if k == 1 {
 		return "class"
 	}
@@ -519,6 +533,9 @@ func (t *table) walkKey(auto bool, k int, isAsc bool, kw []byte) string {
 	}
 	if k == 1 && t.class5 {
 		key += "+class5"
+	}
+	if detailsMode && t.vacated > 0 {
+		key += "+vacated"
 	}
 	return key + t.suffix()
 }
